@@ -431,6 +431,41 @@ Section Facts.
   Lemma Forall_lookup : forall (P : K * V -> Prop) k v m, Forall P m -> lookup k m = Some v -> P (k, v).
   Proof. intros P k v m F L. apply lookup_Some_In in L. rewrite Forall_forall in F. exact (F _ L). Qed.
 
+  Lemma In_insert_inv : forall e k v m, In e (insert k v m) -> e = (k, v) \/ In e m.
+  Proof.
+    intros e k v m. induction m as [|[k' v'] r IH]; cbn [SortedMap.insert]; intro H.
+    - destruct H as [H|[]]. left. symmetry. exact H.
+    - destruct (ltb k k'); [|destruct (ltb k' k)].
+      + destruct H as [H|H]; [left; symmetry; exact H|right; exact H].
+      + destruct H as [H|H]; [right; left; exact H|]. destruct (IH H) as [G|G]; [left; exact G|right; right; exact G].
+      + destruct H as [H|H]; [left; symmetry; exact H|right; right; exact H].
+  Qed.
+  Lemma In_remove_inv : forall e k m, In e (remove k m) -> In e m.
+  Proof.
+    intros e k m. induction m as [|[k' v'] r IH]; cbn [SortedMap.remove]; intro H; [exact H|].
+    destruct (ltb k k'); [|destruct (ltb k' k)].
+    - exact H.
+    - destruct H as [H|H]; [left; exact H|right; apply IH; exact H].
+    - right. exact H.
+  Qed.
+  Lemma assoc_last_In : forall k l x, assoc_last k l None = Some x -> In (k, x) l.
+  Proof.
+    intros k l. induction l as [|[k' v] l IH] using rev_ind; intros x H; [discriminate|].
+    rewrite assoc_last_app in H. cbn [assoc_last] in H. apply in_or_app. destruct (keqb k k') eqn:E.
+    - apply keqb_eq in E. subst k'. right. left. congruence.
+    - left. apply IH. exact H.
+  Qed.
+  Lemma lookup_filter_key : forall (t : K -> bool) k m,
+    lookup k (filter (fun e => t (fst e)) m) = if t k then lookup k m else None.
+  Proof.
+    intros t k m. induction m as [|[k' v] r IH]; [destruct (t k); reflexivity|].
+    cbn [filter fst]. destruct (t k') eqn:T; cbn [SortedMap.lookup]; destruct (keqb k k') eqn:E.
+    - apply keqb_eq in E. subst k'. rewrite T. reflexivity.
+    - exact IH.
+    - apply keqb_eq in E. subst k'. rewrite IH, T. reflexivity.
+    - exact IH.
+  Qed.
+
   (* ---- filter on keys, map on values ---- *)
   Lemma lt_all_filter : forall a f (m : list (K * V)), lt_all a m -> lt_all a (filter f m).
   Proof.
